@@ -17,7 +17,7 @@ RULE = ("one evaluation = one configuration round trip (field subset x generated
 ASSUMPTIONS = ["process death only (os._exit): power loss / fsync ordering is not observable here",
                "the untyped key=value format is compared as strings; values there contain no comment characters, '=' only inside, and no surrounding blanks",
                "text values are valid unicode without control characters (key=value) / arbitrary unicode (JSON)"]
-REQUIRED = ["read_before_save", "roundtrips", "route:save-profile", "route:save-dest", "route:str-file", "never_used_profiles", "binary_fields",
+REQUIRED = ["second_saves", "second_save_ok", "read_before_save", "roundtrips", "route:save-profile", "route:save-dest", "route:str-file", "never_used_profiles", "binary_fields",
             "crash_children", "crash_died_inside", "crash_outcome:old", "crash_outcome:new"]
 TIMEOUT = {"quick": 900, "thorough": 7200}
 
@@ -198,8 +198,37 @@ def roundtrip(acc, r, subset, fmt, route, loadpath, used_before, tag):
     d = cfg_diff(cfg, back, untyped=(fmt == "keyval"))
     if d:
         acc.violation("roundtrip-differs:%s:%s" % (fmt, d.split(":")[0].replace("field ", "")), "loaded configuration differs: %s" % d, w)
-    else:
-        acc.count("roundtrip_ok")
+        return
+    acc.count("roundtrip_ok")
+    # the same profile is saved a second time with other values (an account that logs in again gets new routing info, a new
+    # server key, ...), by any of the profile routes and in either format: what loads afterwards is the second configuration
+    if target == profile and r.random() < 0.4:
+        # (through the routes that save a profile by name; save(profile, TYPE_KEYVAL) is the known finding of this property)
+        fmt2 = "json"
+        route2 = r.choice(["save-profile", "profile-object"])
+        vals2 = gen_values(r, subset, fmt2)
+        vals2["phone"] = vals["phone"]
+        cfg2 = Config(**vals2)
+        w2 = dict(w, second_save={"fmt": fmt2, "route": route2})
+        acc.count("second_saves")
+        try:
+            if route2 == "save-profile":
+                cm.save(profile, cfg2)
+            elif route2 == "save-profile-keyval":
+                cm.save(profile, cfg2, serialize_type=ConfigManager.TYPE_KEYVAL)
+            else:
+                YowProfile(profile).write_config(cfg2)
+            back2 = YowProfile(profile).config if r.random() < 0.5 else cm.load(profile)
+        except Exception as e:  # noqa
+            acc.violation("second-save-raises:%s:%s" % (route2, type(e).__name__), "saving the profile a second time (%s, %s after %s, %s) or loading it raised %r" % (route2, fmt2, route, fmt, e), w2)
+            return
+        d2 = "nothing loads" if back2 is None else cfg_diff(cfg2, back2, untyped=(fmt2 == "keyval"))
+        if d2:
+            stale = back2 is not None and not cfg_diff(cfg, back2, untyped=True)
+            acc.violation("second-save-differs:%s:%s" % (fmt2, "stale-first" if stale else d2.split(":")[0].replace("field ", "")), "after a second save (%s, %s) over the first (%s, %s) the profile loads %s: %s"
+                          % (route2, fmt2, route, fmt, "the FIRST configuration" if stale else "something else", d2), w2)
+            return
+        acc.count("second_save_ok")
 
 
 def pick_route(r):
